@@ -589,6 +589,21 @@ pub fn c13(g: &mut Gen) {
             }
         }
     }
+    // a SECOND run on the same network: the first run's outcome (stopped early or not) leaves nothing behind that the second
+    // run's stopping decision could see — the same trajectory stops at the same epoch again; without validation data every
+    // epoch runs again
+    for s in [vec![1.0f32, 2.0, 3.0, 4.0, 5.0, 6.0], vec![5.0, 4.0, 3.0, 4.0, 5.0, 6.0], vec![5.0, 4.0, 3.0, 2.0, 1.0, 0.5], vec![2.0, 2.0, 3.0, 4.0, 4.0, 5.0]] {
+        for t in 1..=3 {
+            for e in [6usize, 4] {
+                let net = one_param_net(0.5, 0.01);
+                g.push(format!("net {} relearn 1 {} 1 1 {} {} 1 {} {} {}", net.token(), sample, sample, t, e, s.len(), q1(&s)), Tol::Tight, &format!("second-run/T{}", t), true);
+            }
+        }
+    }
+    for e in [1usize, 3, 6] {
+        let net = one_param_net(0.5, 0.01);
+        g.push(format!("net {} relearn 1 {} 0 1 {} 0", net.token(), sample, e), Tol::Tight, "second-run/no-validation", true);
+    }
     // hook-free family: the error contracts (lr < 1) or expands (lr > 1) by |1 - 2 lr| per epoch, or oscillates around a plateau
     for lr in [0.1f32, 0.4, 0.5, 0.9, 1.0, 1.05, 1.2, 1.5] {
         for t in 1..=3 {
@@ -884,6 +899,16 @@ pub fn c04(g: &mut Gen) {
             let v = samples_tok(g, &net, &Sh::Flat(2), 2);
             g.push(format!("net {} learn 5 {} 1 2 {} 5 2 3 0", net.token(), s, v), Tol::Loose, &format!("block-with-dropout-and-validation/{}", ["dense", "conv", "deconv"][bi]), true);
         }
+    }
+    // dense blocks of three and four repetitions with biases under plain SGD, mean and additive coupling: after each group's
+    // step every copy holds the accumulation of the stepped copies (recomputed from the gradient sums by the oracle)
+    for (acc, loops, bias2) in [("mean", 3usize, true), ("mean", 4, false), ("add", 3, true), ("mean", 2, true), ("add", 2, false)] {
+        let cb = ArchCfg { wscale: 0.5, acts: vec!["tanh", "linear"], dropout: false, ..ArchCfg::small() };
+        let inner = vec![dense_spec(g, &cb, 3, 3, "tanh", true), dense_spec(g, &cb, 3, 3, "linear", bias2)];
+        let builds = vec![Build::Feedback { inner, loops, inskips: false, outskips: false, acc: acc.into() }, Build::Layer(dense_spec(g, &cb, 3, 2, "linear", false))];
+        let net = NetSpec { input: Shape::Single(3), builds, skipacc: "add".into(), loopacc: "mean".into(), opt: Some(OptSpec::Sgd(0.05, None)), obj: "mse".into(), clamp: None };
+        let s = samples_tok(g, &net, &Sh::Flat(2), 5);
+        g.push(format!("net {} learn 5 {} 0 2 3 0", net.token(), s), Tol::Loose, &format!("coupled-dense-block/{}/L{}", acc, loops), true);
     }
     // every bias on/off pattern of a three-layer MLP (the per-layer bias gradients are summed over the batch
     // layer by layer; a layer without bias sits between layers with one), B = 2 and B > N
@@ -1234,6 +1259,19 @@ pub fn c10(g: &mut Gen) {
         let net = NetSpec { input: Shape::Single(3), builds: vec![Build::Feedback { inner: vec![d1, d2], loops, inskips: false, outskips: false, acc: "mean".into() },
             Build::Layer(dense_spec(g, &cfg, 3, 2, "tanh", true))], skipacc: "add".into(), loopacc: "mean".into(), opt: None, obj: "mse".into(), clamp: None };
         g.push(format!("net {} shapes", net.token()), Tol::Exact, &format!("parameters/heterogeneous/L{}", loops), true);
+        // … and such width-changing dense layers WITH biases stay tied when trained (a bias has as many entries as the layer
+        // has outputs, whatever its number of inputs)
+        if loops >= 2 {
+            for (oi, acc) in ["mean", "add", "mul"].iter().enumerate() {
+                let h1 = dense_spec(g, &cfg, 3, 5, "tanh", true);
+                let h2 = dense_spec(g, &cfg, 5, 3, "tanh", oi != 1);
+                let mut neth = NetSpec { input: Shape::Single(3), builds: vec![Build::Feedback { inner: vec![h1, h2], loops, inskips: false, outskips: false, acc: acc.to_string() },
+                    Build::Layer(dense_spec(g, &cfg, 3, 2, "tanh", true))], skipacc: "add".into(), loopacc: "mean".into(), opt: None, obj: "mse".into(), clamp: None };
+                neth.opt = Some(opts[(loops + oi) % opts.len()].clone());
+                let sh = samples_tok(g, &neth, &Sh::Flat(2), 3);
+                g.push(format!("net {} learn 3 {} 0 2 2 0", neth.token(), sh), Tol::Loose, &format!("learn/heterogeneous-with-bias/{}/L{}", acc, loops), true);
+            }
+        }
         let e1 = dense_spec(g, &cfg, 4, 7, "tanh", true);
         let e2 = dense_spec(g, &cfg, 7, 2, "tanh", true);
         let e3 = dense_spec(g, &cfg, 2, 4, "tanh", false);
@@ -1622,6 +1660,44 @@ pub fn c16(g: &mut Gen) {
             }
         }
     }
+    // … the same with a spatial layer IN FRONT of the source (a convolution, a max-pool, a deconvolution whose output extents
+    // differ from the target's input extents): the gradient handed back to it is the sum of the two gradients in the SOURCE's
+    // arrangement, and the layers before the source receive the exact derivative too
+    for variant in 0..4usize {
+        let (input, front, src, tgt, count): (Shape, InnerSpec, InnerSpec, InnerSpec, usize) = match variant {
+            0 => (Shape::Triple(1, 4, 4),
+                InnerSpec::Conv { filters: 1, act: "tanh".into(), k: (3, 3), s: (1, 1), p: (1, 1), d: (1, 1), dropout: None, ks: vec![weights(g, &Shape::Triple(1, 3, 3), 0.4)] },
+                InnerSpec::Conv { filters: 4, act: "tanh".into(), k: (2, 2), s: (2, 2), p: (0, 0), d: (1, 1), dropout: None, ks: (0..4).map(|_| weights(g, &Shape::Triple(1, 2, 2), 0.5)).collect() },
+                InnerSpec::Conv { filters: 2, act: "tanh".into(), k: (1, 1), s: (1, 1), p: (0, 0), d: (1, 1), dropout: None, ks: (0..2).map(|_| weights(g, &Shape::Triple(4, 1, 1), 0.5)).collect() }, 8),
+            1 => (Shape::Triple(2, 3, 2),
+                InnerSpec::Conv { filters: 2, act: "tanh".into(), k: (1, 1), s: (1, 1), p: (0, 0), d: (1, 1), dropout: None, ks: (0..2).map(|_| weights(g, &Shape::Triple(2, 1, 1), 0.6)).collect() },
+                InnerSpec::Deconv { filters: 1, act: "tanh".into(), k: (1, 3), s: (1, 1), p: (0, 0), dropout: None, ks: vec![weights(g, &Shape::Triple(2, 1, 3), 0.4)] },
+                InnerSpec::Conv { filters: 1, act: "linear".into(), k: (1, 1), s: (1, 1), p: (0, 0), d: (1, 1), dropout: None, ks: vec![weights(g, &Shape::Triple(1, 1, 1), 0.9)] }, 12),
+            2 => (Shape::Triple(1, 4, 6),
+                InnerSpec::Maxpool { k: (2, 2), s: (2, 2) },
+                InnerSpec::Conv { filters: 2, act: "tanh".into(), k: (1, 3), s: (1, 1), p: (0, 0), d: (1, 1), dropout: None, ks: (0..2).map(|_| weights(g, &Shape::Triple(1, 1, 3), 0.5)).collect() },
+                InnerSpec::Conv { filters: 1, act: "tanh".into(), k: (1, 1), s: (1, 1), p: (0, 0), d: (1, 1), dropout: None, ks: vec![weights(g, &Shape::Triple(2, 1, 1), 0.7)] }, 2),
+            _ => (Shape::Triple(1, 3, 3),
+                InnerSpec::Deconv { filters: 1, act: "tanh".into(), k: (2, 2), s: (1, 1), p: (0, 0), dropout: None, ks: vec![weights(g, &Shape::Triple(1, 2, 2), 0.5)] },
+                InnerSpec::Conv { filters: 4, act: "tanh".into(), k: (2, 2), s: (2, 2), p: (0, 0), d: (1, 1), dropout: None, ks: (0..4).map(|_| weights(g, &Shape::Triple(1, 2, 2), 0.5)).collect() },
+                InnerSpec::Conv { filters: 1, act: "tanh".into(), k: (1, 1), s: (1, 1), p: (0, 0), d: (1, 1), dropout: None, ks: vec![weights(g, &Shape::Triple(4, 1, 1), 0.5)] }, 4),
+        };
+        let mut front_layers = vec![Build::Layer(front)];
+        if variant == 0 { /* the source is layer 1, the target layer 2 */ }
+        front_layers.push(Build::Layer(src));
+        front_layers.push(Build::Layer(tgt));
+        front_layers.push(Build::Layer(dense_spec(g, &cfg, count, 2, "tanh", true)));
+        front_layers.push(Build::Connect(1, 2));
+        for acc in ["add", "mean", "sub"] {
+            let net = NetSpec { input: input.clone(), builds: front_layers.clone(), skipacc: acc.into(), loopacc: "mean".into(), opt: None, obj: "mse".into(), clamp: None };
+            let x = input_for(g, &net.input);
+            g.push(format!("net {} predict {}", net.token(), qt(&x)), Tol::Tight, &format!("spatial-rearranged-behind-a-layer{}/{}", variant, acc), true);
+            if acc == "add" {
+                let t = target_for(g, &Sh::Flat(2), "mse");
+                g.push(format!("net {} backward {} {}", net.token(), qt(&x), qt(&t)), Tol::Tight, "skip-gradient/spatial-rearranged-behind-a-layer", true);
+            }
+        }
+    }
     // the accumulation at the ends of the scale (subnormal operands, operands next to the smallest normal number, operands
     // whose sum overflows): two linear layers with diagonal weights, the second one the target of a connection from the first
     {
@@ -1853,6 +1929,22 @@ pub fn c17(g: &mut Gen) {
             for (ni, net) in [wide_middle, rearranged].iter().enumerate() {
                 let x = input_for(g, &net.input);
                 g.push(format!("net {} predict {}", net.token(), qt(&x)), Tol::Tight, &format!("interior-shape{}/{}/inskips{}", ni, acc, inskips as u8), true);
+            }
+        }
+    }
+    // a range whose last layer is a spatial layer of SEVERAL channels and columns directly in front of a dense layer: its
+    // flattened output goes back into layer a in the row-major arrangement, channel after channel
+    for (ch, h, w) in [(2usize, 3usize, 2usize), (3, 2, 3), (2, 2, 4)] {
+        for acc in ACCS.iter() {
+            for (k, inskips) in [(1usize, false), (2, true), (3, false)] {
+                if !g.ctx.thorough() && (ch + k) % 2 == 0 && *acc != "mean" && *acc != "add" { continue; }
+                let conv = InnerSpec::Conv { filters: ch, act: "tanh".into(), k: (3, 3), s: (1, 1), p: (1, 1), d: (1, 1), dropout: None,
+                    ks: (0..ch).map(|_| weights(g, &Shape::Triple(ch, 3, 3), 0.3)).collect() };
+                let net = NetSpec { input: Shape::Triple(ch, h, w), builds: vec![Build::Layer(conv), Build::Layer(dense_spec(g, &cfg, ch * h * w, 3, "tanh", true)),
+                    Build::Loopback { outof: 0, into: 0, iterations: k, scale: "inv".into(), inskips }],
+                    skipacc: "add".into(), loopacc: acc.to_string(), opt: None, obj: "mse".into(), clamp: None };
+                let x = input_for(g, &net.input);
+                g.push(format!("net {} predict {}", net.token(), qt(&x)), Tol::Tight, &format!("flattened-range-end/{}x{}x{}/{}/k{}", ch, h, w, acc, k), true);
             }
         }
     }
